@@ -116,13 +116,17 @@ class ForkRNG:
         c = _C().choose([_pv(p) for _, p in outs])
         lst[:] = outs[c][0]
 
-    def integers(self, lo, hi=None):
+    def integers(self, lo, hi=None, size=None, dtype=None, endpoint=False):
         if hi is None:
             lo, hi = 0, lo
-        n = int(hi) - int(lo)
+        n = int(hi) - int(lo) + (1 if endpoint else 0)
         if n <= 0:
             raise ValueError("low >= high")
-        return int(lo) + _C().choose([_pv(Fraction(1, n))] * n)
+        if size is None:
+            return int(lo) + _C().choose([_pv(Fraction(1, n))] * n)
+        if not isinstance(size, (int, _np.integer)):
+            raise EncodingGap("integers with a shape")
+        return _np.array([int(lo) + _C().choose([_pv(Fraction(1, n))] * n) for _ in range(int(size))], dtype=int)
 
     def choice(self, a, size=None, replace=True, p=None):
         if p is not None:
